@@ -43,9 +43,16 @@ fn generate(seed: u64, tier: Tier) -> Scenario {
     let root_meta = g.root_meta(&cfg);
     let mut model = TreeModel::new(root_meta);
     let n = if tier.thorough() { 6 + r.usize(20) } else { 5 + r.usize(10) };
-    let b1 = g.burst(&model, &cfg, n);
+    let mut b1 = g.burst(&model, &cfg, n);
     for e in &b1 {
         model.apply(e);
+    }
+    if r.chance(1, 3) {
+        for e in g.extension_sibling_scaffold(&model, &cfg) {
+            if model.apply(&e) {
+                b1.push(e);
+            }
+        }
     }
     let mut steps = vec![Step::Edit(b1), Step::Backup { opts: opts.clone(), plan: FaultPlan::none() }];
     if r.chance(1, 2) {
